@@ -700,6 +700,8 @@ class Interp:
             raise self.err(f"unsupported statement {type(st).__name__}", st)
         try:
             return m(st, env)
+        except alg.ZeroDiv as e:
+            raise RepoRaise("ZeroDivision", st, self.cur_file(), f"{e} in `{ast.unparse(st)[:120]}` (inf/nan in array code, ZeroDivisionError in Python arithmetic)")
         except (Unsupported, AlgError) as e:
             raise self.err(f"{type(e).__name__}: {e} in `{ast.unparse(st)[:120]}`", st)
 
@@ -927,6 +929,8 @@ class Interp:
             raise self.err(f"unsupported expression {type(n).__name__}", n)
         try:
             return m(n, env)
+        except alg.ZeroDiv as e:
+            raise RepoRaise("ZeroDivision", n, self.cur_file(), f"{e} in `{ast.unparse(n)[:120]}` (inf/nan in array code, ZeroDivisionError in Python arithmetic)")
         except (Unsupported, AlgError) as e:
             raise self.err(f"{type(e).__name__}: {e} in `{ast.unparse(n)[:120]}`", n)
         except ShapeError as e:
